@@ -36,7 +36,7 @@ ASSUMPTIONS = [
     "file-name legality is judged against an independent statement of the UFO 'user name to file name' rules (illegal characters, reserved DOS names, no leading period, 255 characters, uniqueness ignoring case)",
     "designspace equality ignores the document's own path/filename and requires formatVersion to be monotone (the writer raises it when the content needs it)",
 ]
-EXPECTED_PROBES = ["A.failglyph", "A.backend.zip", "A.backend.osfs", "A.reopen", "A.glyph_readback", "A.ci", "A.clash_candidate", "B.roundtrip", "C.roundtrip", "N.names"]
+EXPECTED_PROBES = ["A.rewrite", "A.failglyph", "A.backend.zip", "A.backend.osfs", "A.reopen", "A.glyph_readback", "A.ci", "A.clash_candidate", "B.roundtrip", "C.roundtrip", "N.names"]
 
 TIERS = {
     "quick": {"budget_s": 600, "determinism_sample": 16, "n": {"ufo": 9000, "designspace": 2500, "plist": 6000, "names": 6000}, "minimise_s": 40, "max_minimise": 4},
@@ -198,8 +198,18 @@ def gen_coord(r):
     return r.choice([0, -0.0 + 0, 2**15, -(2**15), 10**6])
 
 
+VARIANT = 1 << 31
+
+
 def gen_glyph(seed, glifv):
-    """A glyph record valid for GLIF format glifv (1 or 2)."""
+    """A glyph record valid for GLIF format glifv (1 or 2). seed | VARIANT: the same record with the last
+    bit of its first code point flipped - another glyph whose .glif file has exactly the same length."""
+    if seed >= VARIANT:
+        g = gen_glyph(seed - VARIANT, glifv)
+        u = g.get("unicodes")
+        if u and (u[0] ^ 1) not in u and (u[0] ^ 1) >= 0x20:
+            g["unicodes"] = [u[0] ^ 1] + u[1:]
+        return g
     r = prng.sub("glyph", seed)
     v2 = glifv >= 2
     used = set()
@@ -505,7 +515,7 @@ def generate(ctx, batch, idx):
         fv = r.choice([3, 3, 3, 2, 1])
         ops = []
         n = r.randint(2, 16)
-        kinds = ["glyph"] * 8 + ["failglyph", "failglyph", "delglyph", "contents", "rebuild", "layerinfo", "info", "kerning", "lib", "features", "data", "reopen", "reopen"]
+        kinds = ["glyph"] * 8 + ["failglyph", "failglyph", "rewrite", "rewrite", "delglyph", "contents", "rebuild", "layerinfo", "info", "kerning", "lib", "features", "data", "reopen", "reopen"]
         if fv >= 3:
             kinds += ["newlayer", "newlayer", "renamelayer", "dellayer", "image", "setdefault"]
         for _ in range(n):
@@ -823,6 +833,18 @@ def _exec_ufo(ctx, h, holder):
                         # (when nothing raised — identical data already on disk — the glyph was simply not rewritten)
                         elif gname not in glyphs:
                             glyphs[gname] = None  # unreachable in practice: a new glyph always needs a write
+                elif name == "rewrite":
+                    # an existing glyph is written again: unchanged, or changed in a way that keeps the length
+                    # of its file (the writer may skip the write only when the data is identical)
+                    cands = [(ly, g) for ly, gl in model["layers"].items() for g in gl if gl[g] is not None]
+                    if cands:
+                        ly, gname = r.choice(sorted(cands, key=str))
+                        old = model["layers"][ly][gname]
+                        new = old if r.random() < 0.3 else (old - VARIANT if old >= VARIANT else old + VARIANT)
+                        g = gen_glyph(new, glifv)
+                        gset(ly).writeGlyph(gname, glyph_object(g), draw_points(g))
+                        model["layers"][ly][gname] = new
+                        probes["A.rewrite"] = probes.get("A.rewrite", 0) + 1
                 elif name == "delglyph":
                     cands = [(ly, g) for ly, gl in model["layers"].items() for g in gl if ly in state["gsets"]]
                     if cands:
